@@ -49,3 +49,26 @@ func TestMinimise(t *testing.T) {
 	out, _ := json.Marshal(Case{NP: c.NP, Ops: ops})
 	fmt.Println(strings.TrimSpace(string(out)))
 }
+
+// TestWitnesses (triage aid): C13_WIT=<findings file> runs every witness and prints whether it fails.
+func TestWitnesses(t *testing.T) {
+	path := os.Getenv("C13_WIT")
+	if path == "" {
+		t.Skip()
+	}
+	b, err := os.ReadFile(path)
+	if err != nil {
+		t.Fatal(err)
+	}
+	var fs []struct {
+		ID      string `json:"id"`
+		Witness Case   `json:"witness"`
+	}
+	if err = json.Unmarshal(b, &fs); err != nil {
+		t.Fatal(err)
+	}
+	for _, f := range fs {
+		r := runHistory(f.Witness)
+		fmt.Printf("%s: %s\n", f.ID, r.Err)
+	}
+}
